@@ -1,13 +1,143 @@
-"""C17 — grounded predicates."""
-META = {
-  'level': 'other',
-  'explanation': 'TranslateTableAttachedToFile is proved against its contract (one export statement per grounded '
-                 'predicate, after the nested ones, memoised, edge recorded for every reader); run-sequence '
-                 'behaviour against a persistent SQLite file is a bounded contract.',
-  'assumptions': ['SQLite DDL semantics', 'assumed contracts of PredicateSql (append-only on the statement list) and '
-                  'the other callees listed in the evidence'],
-}
+"""C17 — grounded predicates are materialised faithfully; re-running is idempotent.
+Bounded contract on sequences of runs against one persistent SQLite file."""
+import collections
+import os
+import shutil
+import sqlite3
+import sys
+import tempfile
+sys.path.insert(0, os.path.dirname(os.path.abspath(__file__)))
+import _std
+from vlib import run as R
+
+META = {}
+E = '@Engine("sqlite");\n'
+FACTS = 'T(1, 2);\nT(1, 2);\nT(2, 3);\nT(0, 5);\n'
+T = [(1, 2), (1, 2), (2, 3), (0, 5)]
+
+# name, program (FILE is replaced), attached alias, {table in file: expected rows}, {predicate: expected rows}
+CASES = [
+  dict(name='one_ground', attach='logica_home',
+       text='@AttachDatabase("logica_home", "FILE");\n@Ground(Mid);\n' + FACTS +
+            'Mid(x, y) :- T(x, y), x > 0;\nTop(x) :- Mid(x, y);\nCnt() += 1 :- Mid(x, y);\n',
+       tables={'Mid': [(1, 2), (1, 2), (2, 3)]},
+       preds={'Top': [(1,), (1,), (2,)], 'Cnt': [(3,)]}, asks_itself='Mid'),
+  dict(name='chain_of_two', attach='logica_home',
+       text='@AttachDatabase("logica_home", "FILE");\n@Ground(G1);\n@Ground(G2);\n' + FACTS +
+            'G1(x, y) :- T(x, y);\nG2(x) distinct :- G1(x, y);\nTop(x, c) :- G2(x), c == Sum{1 :- G1(x, z)};\n',
+       tables={'G1': T, 'G2': [(1,), (2,), (0,)]},
+       preds={'Top': [(1, 2), (2, 1), (0, 1)], 'G2': [(1,), (2,), (0,)]}, asks_itself='G1'),
+  dict(name='flag_in_table_name', attach='logica_home',
+       text='@AttachDatabase("logica_home", "FILE");\n@DefineFlag("batch", "b1");\n'
+            '@Ground(Item, "logica_home.item_${batch}");\n' + FACTS + 'Item(x) :- T(x, y), y > 2;\nTop(x + 1) :- Item(x);\n',
+       tables={'item_b1': [(2,), (0,)]}, preds={'Top': [(3,), (1,)]}, asks_itself='Item'),
+  dict(name='user_attaches_logica_test', attach='logica_test',
+       text='@AttachDatabase("logica_test", "FILE");\n@Ground(Mid);\n' + FACTS +
+            'Mid(x) :- T(x, y), x < 2;\nTop(x) :- Mid(x);\n',
+       tables={'Mid': [(1,), (1,), (0,)]}, preds={'Top': [(1,), (1,), (0,)]}, asks_itself='Mid'),
+  dict(name='shared_by_two_grounded', attach='logica_home',
+       text='@AttachDatabase("logica_home", "FILE");\n@Ground(Nums);\n@Ground(Alt);\n@Ground(Big);\n' + FACTS +
+            'Nums(x) :- T(x, y);\nAlt(x + 10) :- Nums(x);\nBig(x * 2) :- Nums(x);\nQ(x) :- Alt(x) | Big(x);\n',
+       tables={'Nums': [(1,), (1,), (2,), (0,)], 'Alt': [(11,), (11,), (12,), (10,)], 'Big': [(2,), (2,), (4,), (0,)]},
+       preds={'Q': [(11,), (11,), (12,), (10,), (2,), (2,), (4,), (0,)]}, asks_itself='Nums'),
+]
+
+
+def script_run(text, pred):
+  """What `logica.py <file> run <pred>` does on sqlite: statements through one fresh connection."""
+  prog = R.compile_program(text)
+  pre, main = R.statements_for(prog, pred)
+  con = R.connect()
+  try:
+    rows, cols = R.execute(con, pre, main)
+    con.commit()
+  finally:
+    con.close()
+  return rows, pre
+
+
+def file_tables(path):
+  if not os.path.exists(path):
+    return {}
+  con = sqlite3.connect(path)
+  out = {}
+  for (name,) in con.execute("select name from sqlite_master where type='table'").fetchall():
+    out[name] = con.execute('select * from "%s"' % name).fetchall()
+  con.close()
+  return out
+
+
+def same(a, b):
+  return collections.Counter(map(tuple, a)) == collections.Counter(map(tuple, b))
+
+
+def run_case(c, base, tier):
+  path = os.path.join(base, c['name'] + '.db')
+  text = E + c['text'].replace('FILE', path)
+  n = 0
+  preds = list(c['preds'])
+  # asking for the grounded predicate itself prints it and writes nothing
+  rows, pre = script_run(text, c['asks_itself'])
+  n += 1
+  want_self = c['tables'][[k for k in c['tables']][0]] if c['asks_itself'] not in c['preds'] else c['preds'][c['asks_itself']]
+  tabs = file_tables(path)
+  own = [k for k in c['tables'] if k.lower().startswith(c['asks_itself'].lower()[:4])]
+  if own and own[0] in tabs:
+    return n, 'asking for %s itself wrote table %s' % (c['asks_itself'], own[0])
+  # sequences of runs: every predicate, then all again in reverse order
+  seq = preds + list(reversed(preds)) + (preds if tier == 'thorough' else [])
+  for k, p in enumerate(seq):
+    rows, pre = script_run(text, p)
+    n += 1
+    if not same(rows, c['preds'][p]):
+      return n, 'run #%d of %s returned %r, the program says %r' % (k + 1, p, sorted(rows), sorted(c['preds'][p]))
+    tabs = file_tables(path)
+    for t, want in c['tables'].items():
+      if t in tabs and not same(tabs[t], want):
+        return n, 'after run #%d (%s) table %s holds %r, the predicate evaluates to %r' % (
+            k + 1, p, t, sorted(tabs[t]), sorted(want))
+    if k == len(preds) - 1:
+      missing = [t for t in c['tables'] if t not in tabs]
+      if missing:
+        return n, 'after running %s the attached file has no table %s (tables: %s)' % (preds, missing, sorted(tabs))
+  return n, None
+
+
+def sequences(tier):
+  out = {'name': 'C17-run-sequences', 'evaluations': 0, 'distinct_nontrivial': 0, 'violations': [], 'samples': [],
+         'rule': 'programs with one or two grounded intermediates, a flag-parameterised table name, a user-attached '
+                 'logica_test file and a table shared by two grounded readers; sequences of runs of their predicates '
+                 '(each, then all again in reverse order) against one persistent SQLite file: rows and table contents '
+                 'equal the spec after every run; asking for the grounded predicate itself writes nothing'}
+  for c in CASES:
+    base = tempfile.mkdtemp(prefix='verif_c17_')
+    try:
+      try:
+        n, msg = run_case(c, base, tier)
+      except Exception as e:
+        n, msg = 1, 'run failed: %s: %s' % (type(e).__name__, str(e)[:300])
+    finally:
+      shutil.rmtree(base, ignore_errors=True)
+    out['evaluations'] += n
+    out['distinct_nontrivial'] += n
+    if msg:
+      out['violations'].append({'key': 'C17-run-sequences/%s' % c['name'],
+                                'replay': {'obligation': 'C17-run-sequences/%s' % c['name'],
+                                           'clause': 'table of P == multiset P evaluates to; re-running changes nothing',
+                                           'solver': 'bounded back end (real compiler + SQLite file)',
+                                           'input': {'program': c['text']},
+                                           'native': {'case': {'program': c['text']}, 'detail': msg, 'clause': 'run sequence'},
+                                           'prop_replay': {'kind': 'sequence', 'case': c['name']}}})
+  out['samples'].append({'case': CASES[0]['name'], 'program': CASES[0]['text'][:200]})
+  return out
 
 
 def run(tier, seed):
-  return []
+  return [sequences(tier)]
+
+
+def replay(spec):
+  o = sequences('quick')
+  bad = [v for v in o['violations'] if v['key'].endswith('/' + spec.get('case', ''))]
+  print('             ', [v['replay']['native']['detail'] for v in bad] or 'holds')
+  return not bad
